@@ -20,17 +20,23 @@ HCL = {
     "syn_nbsp": "pc = 0;\nStat =\u00a0# TODO",
     "syn_wide": "pc = 0;\nStat = (\u3000\u3000",
     "syn_eof": "pc = 0;\nStat = 1 +",
+    # the file ends inside a literal: a lexical error at the very end of the input
+    "syn_0x_eof": "pc = 0;\nStat = 0x",
+    "syn_0b_eof": "pc = 0;\nStat = 0b",
     # a rejected file whose diagnostics name non-ASCII identifiers
     "rej_uni": "pc = 0; Stat = STAT_HLT;\n\u00e9tat = 1;\nregister \u00e9 { k : 8 = 0; }\nwire w:8; w = \u65e5\u672c + 1;\n",
 }
 # files that are not UTF-8 or use bare carriage returns as line ends: read lossily / CR ends a line and a line comment
 HCL_BYTES = {
+    # more than 64 KiB: 1500 comment lines, then the program (a reader that stops early sees no program at all)
+    "ok_big": b"".join(b"# padding line %04d ............................................\n" % i for i in range(1500)) +
+              b"register cC { n:8 = 0; } c_n = C_n + 1; pc = 0;\nStat = [C_n == 2 : STAT_HLT; 1 : STAT_AOK];\n",
     "ok_latin1": b"# caf\xe9 au lait \xff\xfe\nregister cC { n:8 = 0; } c_n = C_n + 1; pc = 0; # arr\xeat\nStat = [C_n == 2 : STAT_HLT; 1 : STAT_AOK];\n",
     "ok_cr": b"register cC { n:8 = 0; }\r# a comment that ends at the carriage return\rc_n = C_n + 1; // another\rpc = 0;\rStat = [C_n == 2 : STAT_HLT; 1 : STAT_AOK];\r",
 }
 # cycles until the program stops by itself (None = never), error banner, abort cycle
 STOP = {"ok_halt": (3, "halted"), "ok_run": (None, None), "ok_err": (2, "error"), "div": (None, None),
-        "ok_latin1": (3, "halted"), "ok_cr": (3, "halted")}
+        "ok_latin1": (3, "halted"), "ok_cr": (3, "halted"), "ok_big": (3, "halted")}
 ABORT_AT = {"div": 3}
 
 YO = {
@@ -141,7 +147,7 @@ def generate(binary, seed, count, outfile, workdir):
                         dup = True
                     canonical[n] = True
             # positionals
-            hcl = rnd.choice(["ok_halt", "ok_halt", "ok_run", "ok_err", "div", "rej", "syn", "missing", "dir", "syn_nbsp", "syn_wide", "syn_eof", "rej_uni", "ok_latin1", "ok_cr"])
+            hcl = rnd.choice(["ok_halt", "ok_halt", "ok_run", "ok_err", "div", "rej", "syn", "missing", "dir", "syn_nbsp", "syn_wide", "syn_eof", "rej_uni", "ok_latin1", "ok_cr", "ok_big", "syn_0x_eof", "syn_0b_eof"])
             traw = rnd.choice(TIMEOUTS)
             if hcl == "ok_run" and traw in ("4294967295",):
                 hcl = "ok_halt"        # a non-halting program with a 2^32-1 budget would run for hours
